@@ -1144,6 +1144,10 @@ func (g *Generator) NextBlock(h int64) BlockStep {
 			it = g.garbage(h)
 		} else if len(w.History) > 0 && g.r.Chance(c.PReplay) {
 			it = Intent{Kind: "replay", Replay: g.r.Intn(len(w.History))}
+			if c.Property == "C04" && (it.Replay+int(h))%3 == 0 {
+				// (no extra draw) the old bytes with the nonce field rewritten to the currently expected one
+				it.Mut = &Mutation{Field: "nonce", How: "cur"}
+			}
 		} else {
 			it = g.intent(h)
 		}
